@@ -17,6 +17,7 @@ import (
 	"path/filepath"
 	"sort"
 	"strings"
+	"sync"
 	"time"
 
 	"sigs.k8s.io/yaml"
@@ -289,6 +290,8 @@ func annotationsWellFormed(doc interface{}) bool {
 	return ok
 }
 
+var activeMu sync.Mutex
+
 type schemaUnderTest struct {
 	name string
 	s    *schema.Schema
@@ -354,7 +357,41 @@ func oracleSchemaRow(idx int, line []byte, schemas []schemaUnderTest, col *colle
 					verdicts["ValidateType(*Spec)"] = su.s.ValidateType(raw) == nil
 				}
 			}
-			steps += len(verdicts)
+			// a schema-valid document that parses into a Spec stays valid as the in-memory value
+			if su.kind == "files" && want && annOK {
+				var parsed *specs.Spec
+				sd := json.NewDecoder(bytes.NewReader(row.Doc))
+				sd.DisallowUnknownFields()
+				if sd.Decode(&parsed) == nil && parsed != nil {
+					if err := su.s.Validate(parsed); err != nil {
+						report(Mismatch{Step: si, Props: []string{"C17"}, What: "valid-document-becomes-invalid-as-in-memory-spec", Want: "valid", Got: err.Error(), Note: su.name + ": " + short})
+					}
+				}
+			}
+			// the package-level functions act on the active schema (schema.Set): same verdicts
+			activeMu.Lock()
+			schema.Set(su.s)
+			pkg := map[string]bool{
+				"ValidateData(json)":   schema.ValidateData(row.Doc) == nil,
+				"ValidateFile(.json)":  schema.ValidateFile(jf) == nil,
+				"ValidateReader(json)": schema.ValidateReader(bytes.NewReader(row.Doc)) == nil,
+			}
+			if yerr == nil {
+				pkg["ValidateData(yaml)"] = schema.ValidateData(yb) == nil
+			}
+			if _, isObj := generic.(map[string]interface{}); isObj {
+				pkg["ValidateType(map)"] = schema.ValidateType(generic) == nil
+			}
+			if schema.Get() != su.s {
+				report(Mismatch{Step: si, Props: []string{"C17"}, What: "active-schema-is-not-the-one-set", Note: su.name})
+			}
+			activeMu.Unlock()
+			for ep, got := range pkg {
+				if got != verdicts[ep] {
+					report(Mismatch{Step: si, Props: []string{"C17"}, What: "package-level-function-disagrees-with-the-active-schema", Want: verdicts[ep], Got: got, Note: su.name + " schema." + ep + ": " + short})
+				}
+			}
+			steps += len(verdicts) + len(pkg)
 			names := make([]string, 0, len(verdicts))
 			for k := range verdicts {
 				names = append(names, k)
@@ -444,6 +481,7 @@ func oracleSchemaMain(args []string) int {
 		fmt.Fprintln(os.Stderr, err)
 		return 2
 	}
+	schema.Set(schema.BuiltinSchema())
 	return col.finish(start)
 }
 
